@@ -179,3 +179,31 @@ Theorem C17_bounds_ordered_exec fm : Forall pos_pairQ fm -> (sumT Qops (map fst 
   (wienerUpperP Qops fm <= maxOf Qops (map snd fm))%Q.
 Proof. exact (bounds_ordered_Q fm). Qed.
 Print Assumptions C17_bounds_ordered_exec.
+
+(* ---- configuration layer ---------------------------------------------------------------------
+   c0 = what the constructor stored (its labyrinthFactor argument is documented as "between 1 and 2");
+   ops = any sequence of setter calls, on the parameter object or through HomogenizationModel, with
+   ANY real factor handed to setLabyrinthFactor *)
+Theorem C17_config_factor_in_range (c0 : config Rops) ops : 1 <= c_factor c0 <= 2 ->
+  1 <= c_factor (configure Rops c0 ops) <= 2.
+Proof. exact (configure_factor_range c0 ops). Qed.
+Print Assumptions C17_config_factor_in_range.
+
+(* hence the configured labyrinth rule never exceeds upper Wiener, whatever was handed to the setters *)
+Theorem C17_config_labyrinth_le tiny (c0 : config Rops) ops fr col : 1 <= c_factor c0 <= 2 ->
+  length fr = length col -> Forall (fun f => 0 <= f) fr -> Forall (fun m => 0 < m) col -> sumR fr = 1 ->
+  labyrinthC Rops tiny (powR (c_factor (configure Rops c0 ops))) fr col <= wienerUpperC Rops tiny fr col.
+Proof. exact (config_labyrinth_le tiny c0 ops fr col). Qed.
+Print Assumptions C17_config_labyrinth_le.
+
+(* a setter changes the option it names and nothing else; the last call decides *)
+Theorem C17_config_last_call (O : Ops) (c0 : config O) ops op :
+  let c := configure O c0 ops in
+  configure O c0 (ops ++ [op]) =
+    match op with
+    | OpRule r => mkCfg r (c_factor c) (c_post c)
+    | OpLab n => mkCfg (c_rule c) (clampLab O n) (c_post c)
+    | OpPost p => mkCfg (c_rule c) (c_factor c) p
+    end.
+Proof. exact (configure_last O c0 ops op). Qed.
+Print Assumptions C17_config_last_call.
